@@ -320,6 +320,9 @@ SELFTEST = [
     dict(id='suffix-constant-collides', file='src/ace_time/internal/ZoneContext.inc', find='kSuffixS = 0x10', replace='kSuffixS = 0x01', rule='R3'),
     dict(id='save-guard-widened', file='tools/tzdb/transformer.py', find='if delta_code < 0 or delta_code > 15:',
          replace='if delta_code < 0 or delta_code > 16:', rule='R4', construct='_create_rules_with_expanded_delta_offset'),
+    dict(id='fixed-rules-guard-removed', file='tools/tzdb/transformer.py', regex=True,
+         find=r"                    delta_code = div_to_zero\(\n                        rules_delta_seconds_truncated, 900\) \+ 4\n                    if delta_code < 0 or delta_code > 15:",
+         replace="                    delta_code = 4\\n                    if delta_code < 0 or delta_code > 15:", rule='R4', construct='_create_zones_with_rules_expansion'),
     dict(id='encoder-renamed-locals-silent', file='tools/zonedb/argenerator.py', regex=True,
          find=r'timeCode = div_to_zero\(seconds, 15 \* 60\)\n    timeMinute = seconds % 900 // 60\n    modifier = _to_modifier\(suffix, scope\)\n    if timeMinute > 0:\n        modifier \+= f\' \+ \{timeMinute\}\'\n    return timeCode, modifier',
          replace="tc = div_to_zero(seconds, 900)\\n    rem = (seconds % (15 * 60)) // 60\\n    m = _to_modifier(suffix, scope)\\n    if rem > 0:\\n        m = m + f' + {rem}'\\n    return tc, m", expect='silent'),
